@@ -133,6 +133,10 @@ def exec_masters(case):
         a = cli.write_sources(w / "thin", [("emoji_u1f601.svg", good(0)), ("emoji_u1f605.svg", good(1))])
         if case["cls"] == "masters-differ":
             b = cli.write_sources(w / "bold", [("emoji_u1f601.svg", good(0)), ("emoji_u1f609.svg", good(1))])
+        elif case["cls"] == "masters-superset":  # the other master has every source of this one, and one more
+            b = cli.write_sources(w / "bold", [("emoji_u1f601.svg", good(0)), ("emoji_u1f605.svg", good(1)), ("emoji_u1f609.svg", good(0))])
+        elif case["cls"] == "masters-subset":
+            b = cli.write_sources(w / "bold", [("emoji_u1f601.svg", good(0))])
         else:  # duplicate file names inside one master
             b = cli.write_sources(w / "bold", [("emoji_u1f601.svg", good(0)), ("emoji_u1f605.svg", good(1))])
             extra = cli.write_sources(w / "bold2", [("emoji_u1f605.svg", good(2))])
@@ -200,7 +204,7 @@ def run(report, tier, only=None):
         for fmt in fmts:
             for pos in positions:
                 cases.append({"kind": "cli", "cls": cls, "fmt": fmt, "position": pos})
-    for cls in ("masters-differ", "duplicate-names-in-master"):
+    for cls in ("masters-differ", "masters-superset", "masters-subset", "duplicate-names-in-master"):
         for order in (0, 1):
             cases.append({"kind": "masters", "cls": cls, "order": order})
     if only in (None, "cli"):
